@@ -66,6 +66,10 @@ type qObs struct {
 	W string  `json:"w"` // closer: idle blk done
 	// consumers that returned during this op, in the order their returns were reported
 	Ev []int `json:"ev"`
+	// swap rig: message ids waiting in the OLD (long-polling) transport's queue, and the ids the
+	// NEW transport has been asked to send, in order
+	OQ []int `json:"oq,omitempty"`
+	NS []int `json:"ns,omitempty"`
 }
 
 type qCase struct {
@@ -410,11 +414,17 @@ func (r *qRunner) observe() qObs {
 		o.W = "blk"
 	}
 	o.Q, o.R, o.X, o.Z = r.ut.lens()
+	if sw, ok := r.ut.(*swapUT); ok {
+		o.OQ, o.NS = sw.view()
+	}
 	return o
 }
 
 func (r *qRunner) apply(op qOp) {
 	switch op.K {
+	case "N", "U":
+		r.applySwap(op)
+		return
 	case "S":
 		th := r.cons[op.C]
 		if th.state != tIdle && th.state != tDone {
@@ -495,7 +505,11 @@ func (r *qRunner) cleanup() error {
 func runQCase(queue string, nc int, cfg string, ops []qOp) qCase {
 	var ut qUnderTest
 	c := qCase{Queue: queue, NC: nc, Cfg: cfg}
-	if queue == "poll" {
+	if queue == "swap" {
+		sw := newSwapUT()
+		defer sw.sock.Close()
+		ut = sw
+	} else if queue == "poll" {
 		q := polling.VerifNewPollQueue()
 		c.Cap = q.ReadyCap()
 		ut = pollUT{q}
@@ -504,6 +518,9 @@ func runQCase(queue string, nc int, cfg string, ops []qOp) qCase {
 		c.Cap = 1
 	}
 	r := newQRunner(ut, nc)
+	if sw, ok := ut.(*swapUT); ok {
+		sw.r = r
+	}
 	qCurrent.mu.Lock()
 	qCurrent.r = r
 	qCurrent.mu.Unlock()
@@ -623,6 +640,9 @@ type qConfig struct {
 }
 
 func qConfigs(queue string, thorough bool) []qConfig {
+	if queue == "swap" {
+		return swapConfigs(thorough)
+	}
 	var cfgs []qConfig
 	prods := func(n int, double bool) []qProg {
 		var ps []qProg
@@ -958,7 +978,7 @@ func queuesMain(args []string) error {
 	fs := flag.NewFlagSet("queues", flag.ExitOnError)
 	seed := fs.Uint64("seed", 1, "")
 	mode := fs.String("mode", "forced", "forced|live|stress|count")
-	queue := fs.String("queue", "poll", "poll|packet")
+	queue := fs.String("queue", "poll", "poll|packet|swap")
 	tier := fs.String("tier", "quick", "quick|thorough")
 	n := fs.Int("n", 3, "live: number of runs per kind")
 	only := fs.String("only", "", "forced: run only this JSON op list (replay), with -nc")
